@@ -262,6 +262,7 @@ func checkC07() *checkDef {
 			return []run{
 				{Pkg: "./proxy/headers", Scenario: "headers/range", Params: map[string]any{"max_len": ml, "sizes": []int{0, 1, 2, 10, 36}}},
 				{Pkg: "./proxy", Scenario: "proxy/range", Params: map[string]any{"backend": "memory"}},
+				{Pkg: "./proxy", Scenario: "proxy/range", Params: map[string]any{"backend": "file"}},
 			}
 		},
 	}
@@ -283,6 +284,7 @@ func checkC08() *checkDef {
 				{Pkg: "./proxy", Scenario: "proxy/relay", Params: map[string]any{"backend": "file"}},
 				{Pkg: "./proxy", Scenario: "proxy/tunnel-relay", Params: map[string]any{}},
 				{Pkg: "./proxy", Scenario: "proxy/range", Params: map[string]any{"backend": "memory"}},
+				{Pkg: "./proxy", Scenario: "proxy/range", Params: map[string]any{"backend": "file"}},
 			}
 		},
 	}
@@ -315,6 +317,9 @@ func checkC09() *checkDef {
 				ps = append(ps, psched{Name: n("other-client-hangs-up"), Backend: be, Clients: 2, Start: "cold", Outcome: "cacheable", Cancel: 2, Slow: true, Prop: "C09"})
 			}
 			return []run{
+				// range requests refused upstream and retried: a retry answer the cache cannot keep (empty body on
+				// the file backend) still reaches the client
+				{Pkg: "./proxy", Scenario: "proxy/range", Params: map[string]any{"backend": "file"}},
 				{Pkg: "./proxy", Scenario: "proxy/fault", Params: map[string]any{}},
 				{Pkg: "./proxy", Scenario: "proxy/sched", Params: ps, K: k, E: 1, F: 1, Horizon: 8000},
 			}
